@@ -2,6 +2,7 @@ package checks
 
 import (
 	"fmt"
+	"github.com/vedadiyan/genql"
 
 	"pgregory.net/rapid"
 	"verifharness/sq"
@@ -27,6 +28,22 @@ type C08Case struct {
 	// 7 -> "7", true -> "true", null -> "<nil>") or "merged-key" (a text column swallows the next key: {a:"x", b:1}
 	// -> {a:"x b:1"}); label only, the document holds the derived leaf
 	Twin string `json:"twin,omitempty"`
+	// Vars / Consts: the query is built WithVars(Vars) / WithConstants(Consts) and reads them (GETVAR / CONSTANT in
+	// BackWhere or BackItem); the options of a query hold inside every inner array as they do on a flat table
+	Vars   map[string]any `json:"vars,omitempty"`
+	Consts map[string]any `json:"consts,omitempty"`
+}
+
+// extra are the options every execution of the case is built with.
+func (c *C08Case) extra() []genql.QueryOption {
+	var l []genql.QueryOption
+	if c.Vars != nil {
+		l = append(l, genql.WithVars(val.CopyMap(c.Vars)))
+	}
+	if c.Consts != nil {
+		l = append(l, genql.WithConstants(val.CopyMap(c.Consts)))
+	}
+	return l
 }
 
 func init() {
@@ -35,7 +52,7 @@ func init() {
 		Title: "A multi-dimensional FROM applies the query inside every inner array",
 		Rule: "rapid draws a document key holding arrays of arrays of objects (depth 2-3, ragged, empty inner arrays, a fifth of the documents with levels of 4-13 inner arrays; in a third of the documents one leaf array is derived from another leaf: an identical copy, or a look-alike whose values are of another kind but print the same - 7 / '7', true / 'true', null / '<nil>', a text that swallows the next key), a select list (columns, " +
 			"simple expressions, optional *), an optional WHERE and, in half of the cases, a back reference to siblings of the source in the enclosing " +
-			"document (`<-.lim` in a comparison, IN / [NOT] EXISTS / select-item subqueries over `<-allow`); oracle: the result has the same nesting and each leaf array's result equals the " +
+			"document (`<-.lim` in a comparison, IN / [NOT] EXISTS / select-item subqueries over `<-allow`) or a read of the query's own options (GETVAR / CONSTANT under WithVars / WithConstants, in WHERE or as a select item); oracle: the result has the same nesting and each leaf array's result equals the " +
 			"execution of the same query on the document with that leaf in place of nn; FROM `mix=>nn` equals the concatenation of the leaf results in order. Non-trivial: >=2 " +
 			"non-empty leaves and WHERE rejects >=1 row below the first dimension.",
 		Assumptions: []string{"only WHERE + select list inside nested sources (aggregates, ORDER BY, LIMIT there are not in the statement)"},
@@ -150,6 +167,25 @@ func genC08(t *rapid.T) any {
 		c.BackWhere = fmt.Sprintf("%sEXISTS (SELECT x FROM `<-allow` WHERE x = %s)", rapid.SampledFrom([]string{"", "NOT "}).Draw(t, "backnot"), icol)
 	case 3:
 		c.BackItem = fmt.Sprintf("(SELECT x FROM `<-allow` WHERE x >= %s) AS bs", sq.NumLit(rapid.SampledFrom(pool).Draw(t, "backc").(float64)))
+	case 4:
+		// state that comes with the query's options, not with the document
+		v := rapid.SampledFrom(pool).Draw(t, "optval")
+		op := rapid.SampledFrom([]string{">=", "<", "=", "!="}).Draw(t, "optop")
+		switch rapid.IntRange(0, 3).Draw(t, "optform") {
+		case 0:
+			c.Vars = map[string]any{"vmin": v}
+			c.BackWhere = fmt.Sprintf("%s %s GETVAR('vmin')", icol, op)
+		case 1:
+			c.Consts = map[string]any{"cmin": v}
+			c.BackWhere = fmt.Sprintf("%s %s CONSTANT('cmin')", icol, op)
+		case 2:
+			c.Vars = map[string]any{"vtag": v}
+			c.BackItem = "GETVAR('vtag') AS vt"
+		default:
+			c.Vars, c.Consts = map[string]any{"vmin": v}, map[string]any{"ctag": "c"}
+			c.BackWhere = fmt.Sprintf("%s %s GETVAR('vmin')", icol, op)
+			c.BackItem = "CONSTANT('ctag') AS ct"
+		}
 	}
 	return c
 }
@@ -334,7 +370,7 @@ func checkC08(c *C08Case) Result {
 	var expect func(a []any, depth int) []any
 	expect = func(a []any, depth int) []any {
 		if isLeaf(a) && depth > 0 {
-			out := Run(c.leafDoc(a), sql, Opts{})
+			out := Run(c.leafDoc(a), sql, Opts{}, c.extra()...)
 			res.Execs++
 			if !out.OK() {
 				failed = out.Describe()
@@ -366,7 +402,7 @@ func checkC08(c *C08Case) Result {
 		res.Labels = append(res.Labels, "an-inner-array-fails")
 		res.NonTrivial = nonEmptyLeaves >= 1
 		for _, q := range []string{sql, c.sql("`mix=>nn`")} {
-			out := Run(val.CopyMap(c.Doc), q, Opts{})
+			out := Run(val.CopyMap(c.Doc), q, Opts{}, c.extra()...)
 			res.Execs++
 			if out.Panic != "" || out.OK() {
 				res.Violation = fmt.Sprintf("%s\n  source %s\n  run directly on one of the inner arrays the query fails (%s), here it returned %s", q, val.JSON(nn), truncate(failed, 120), out.Describe())
@@ -379,7 +415,7 @@ func checkC08(c *C08Case) Result {
 		res.Discard = "query fails on a leaf array: " + truncate(failed, 60)
 		return res
 	}
-	out := Run(val.CopyMap(c.Doc), sql, Opts{})
+	out := Run(val.CopyMap(c.Doc), sql, Opts{}, c.extra()...)
 	res.Execs++
 	if !out.OK() {
 		res.Violation = fmt.Sprintf("%s on %s\n  got %s", sql, val.JSON(nn), out.Describe())
@@ -390,7 +426,7 @@ func checkC08(c *C08Case) Result {
 		return res
 	}
 	msql := c.sql("`mix=>nn`")
-	mout := Run(val.CopyMap(c.Doc), msql, Opts{})
+	mout := Run(val.CopyMap(c.Doc), msql, Opts{}, c.extra()...)
 	res.Execs++
 	if flat == nil {
 		flat = []any{}
@@ -403,7 +439,7 @@ func checkC08(c *C08Case) Result {
 	// does not depend on the queries that read the document before it
 	live := val.CopyMap(c.Doc)
 	for i, q := range []string{sql, msql, sql} {
-		o := Run(live, q, Opts{})
+		o := Run(live, q, Opts{}, c.extra()...)
 		res.Execs++
 		expect := any(want)
 		if i == 1 {
